@@ -116,6 +116,120 @@ def jw_sign_rule(chk, src):
     return {x for w in words for x in w} - failed
 
 
+def int_to_h_rule(chk, src, rule):
+    """abstract run of h_qc.int_to_h on symbolic one- and two-electron integrals of two spatial orbitals (arrays as index -> sympy expression maps with the numpy operations
+    an expansion to spin orbitals plausibly uses): the one-electron part is h[q//2, s//2] between spin orbitals of equal spin and zero between different spins; the
+    antisymmetrised two-electron part is, for p < q and r < s, (ps|qr) d(sp,ss) d(sq,sr) - (pr|qs) d(sp,sr) d(sq,ss), zero elsewhere"""
+    import itertools
+    import sympy as sp
+    from ..syminterp import SymInterp, Sym, Blob, OpenSym, SymRaise
+    fi = src.func(HQC, "int_to_h")
+
+    class Arr(Sym):
+        def __init__(self, shape, cells=None):
+            super().__init__("array")
+            self.shape, self.ndim = tuple(shape), len(shape)
+            self.cells = dict(cells or {})
+
+        def _key(self, k):
+            k = k if isinstance(k, tuple) else (k,)
+            if len(k) != self.ndim or not all(isinstance(x, int) for x in k):
+                raise AnalysisError(f"array index {k!r} is not modelled")
+            k = tuple(x % n_ for x, n_ in zip(k, self.shape))
+            return k
+
+        def __getitem__(self, k):
+            return self.cells.get(self._key(k), sp.Integer(0))
+
+        def __setitem__(self, k, v):
+            self.cells[self._key(k)] = sp.sympify(v)
+
+        def __len__(self):
+            return self.shape[0]
+
+        def copy(self):
+            return Arr(self.shape, self.cells)
+
+        def _zip(self, o, f):
+            if isinstance(o, Arr):
+                if o.shape != self.shape:
+                    raise AnalysisError("arrays of different shape combined")
+                return Arr(self.shape, {k: f(self[k], o[k]) for k in itertools.product(*[range(n_) for n_ in self.shape])})
+            return Arr(self.shape, {k: f(self[k], sp.sympify(o)) for k in itertools.product(*[range(n_) for n_ in self.shape])})
+
+        def __add__(self, o):
+            return self._zip(o, lambda a, b: a + b)
+
+        def __sub__(self, o):
+            return self._zip(o, lambda a, b: a - b)
+
+        def __mul__(self, o):
+            return self._zip(o, lambda a, b: a * b)
+
+        __rmul__ = __mul__
+
+        def transpose(self, *axes):
+            axes = list(axes[0]) if len(axes) == 1 and isinstance(axes[0], (list, tuple)) else list(axes)
+            return Arr([self.shape[a] for a in axes], {tuple(k[a] for a in axes): v for k, v in self.cells.items()})
+
+    def repeat(a, n_, axis=None):
+        if axis is None:
+            raise AnalysisError("np.repeat without axis")
+        axis %= a.ndim
+        shape = list(a.shape)
+        shape[axis] *= n_
+        out = Arr(shape)
+        for k in itertools.product(*[range(x) for x in shape]):
+            src_k = tuple(x // n_ if d == axis else x for d, x in enumerate(k))
+            out.cells[k] = a[src_k]
+        return out
+
+    def kron(a, b):
+        if a.ndim != 2 or b.ndim != 2:
+            raise AnalysisError("np.kron of arrays that are not matrices")
+        out = Arr((a.shape[0] * b.shape[0], a.shape[1] * b.shape[1]))
+        for i, j, k_, l in itertools.product(range(a.shape[0]), range(a.shape[1]), range(b.shape[0]), range(b.shape[1])):
+            out.cells[(i * b.shape[0] + k_, j * b.shape[1] + l)] = a[i, j] * b[k_, l]
+        return out
+
+    def eye(n_, *a, **k):
+        return Arr((n_, n_), {(i, i): sp.Integer(1) for i in range(n_)})
+    norb = 2
+    h = Arr((norb, norb), {(i, j): sp.Symbol(f"h{i}{j}") for i in range(norb) for j in range(norb)})
+    eri = Arr((norb,) * 4, {k: sp.Symbol("g" + "".join(map(str, k))) for k in itertools.product(range(norb), repeat=4)})
+    npx = OpenSym("np", make=lambda t: Blob(t), zeros=lambda shape, *a, **k: Arr(shape if isinstance(shape, (tuple, list)) else (shape,)), zeros_like=lambda a, **k: Arr(a.shape),
+                  asarray=lambda a, *x, **k: a, array=lambda a, *x, **k: a, repeat=repeat, kron=kron, eye=eye, identity=eye, transpose=lambda a, axes=None: a.transpose(axes or list(range(a.ndim))[::-1]))
+    it = SymInterp(src, None, {"np": npx, "logger": Blob("logger")})
+    it.max_depth = 6
+    probs = []
+    try:
+        res = it.call_function(fi, [h, eri])
+    except SymRaise as e:
+        res = None
+        probs.append(f"raises {e}")
+    if res is not None:
+        if not (isinstance(res, tuple) and len(res) == 2 and isinstance(res[0], Arr) and isinstance(res[1], Arr) and res[0].shape == (4, 4) and res[1].shape == (4, 4, 4, 4)):
+            probs.append(f"returns {str(res)[:80]}; expected (one-electron matrix over 4 spin orbitals, antisymmetrised two-electron tensor)")
+        else:
+            sh, aseri = res
+            for q, s_ in itertools.product(range(4), repeat=2):
+                want = h[q // 2, s_ // 2] if q % 2 == s_ % 2 else sp.Integer(0)
+                if sp.simplify(sh[q, s_] - want) != 0:
+                    probs.append(f"one-electron element [{q}, {s_}] = {sh[q, s_]}; expected {want} (spin orbitals {q}, {s_} have {'equal' if q % 2 == s_ % 2 else 'different'} spin)")
+                    break
+
+            def seri(p, q, r, s_):
+                return eri[p // 2, s_ // 2, q // 2, r // 2] if (p % 2 == s_ % 2 and q % 2 == r % 2) else sp.Integer(0)
+            for p, q, r, s_ in itertools.product(range(4), repeat=4):
+                want = (seri(p, q, r, s_) - seri(p, q, s_, r)) if (p < q and r < s_) else sp.Integer(0)
+                if sp.simplify(aseri[p, q, r, s_] - want) != 0:
+                    probs.append(f"two-electron element [{p}, {q}, {r}, {s_}] = {aseri[p, q, r, s_]}; expected {want}")
+                    break
+    chk.ob(rule, "int_to_h: spatial -> spin orbital integrals", not probs, fi.where, probs[:2] or "spin-diagonal one-electron part, antisymmetrised two-electron part on p < q, r < s", "as specified", line=fi.node.lineno,
+           detail="the spin-orbital Hamiltonian must conserve the number of alpha and of beta electrons: an integral between spin orbitals of different spin creates spin-flip terms that are invisible "
+                  "inside every fixed (N_alpha, N_beta) sector: " + (probs[0] if probs else ""))
+
+
 def qc_terms_rule(chk, src):
     """abstract run of qc_model for both layouts on integrals given by their non-zero index tuples: every non-zero one- and two-electron integral gives exactly one term,
     a^dagger_p a_q resp. a^dagger_p a^dagger_q a_r a_s processed by simplify_op and multiplied by that integral; the stacked layout groups the same terms by p"""
@@ -362,6 +476,8 @@ def run(chk):
     chk.rule("jw-vocabulary", "table_row_swapped_jw recognises the spin-symbol spellings produced by generate_ladder_operator / simplify_op", 2)
     chk.rule("jw-flag", "operator side applies the Jordan-Wigner remapping under the flag passed by try_swap_site (state side: state-swap runs)", 1)
     chk.rule("qc-term-coverage", "qc_model (abstract run on sparse symbolic integrals): one processed term per non-zero integral in both layouts", 2)
+    chk.rule("spin-orbital-integrals", "int_to_h (abstract run on symbolic integrals of two spatial orbitals): spin-diagonal one-electron part, antisymmetrised two-electron part", 1)
+    int_to_h_rule(chk, src, "spin-orbital-integrals")
     chk.rule("jw-sign-parity", "Jordan-Wigner sign of an operator-side site swap over its whole (finite) input space", 2)
     JW_VERIFIED["symbols"] = jw_sign_rule(chk, src)
     chk.rule("jw-simplify", "Jordan-Wigner strings and their single-site normal ordering, exhaustively over short words", 3)
